@@ -297,4 +297,22 @@ def generate(src):
     gen_get_schedules(src, src.func(REL, 'LabelScheduleSource.get_schedules'))
     # the two drivers use disjoint symbol names; post_send runs on its own initial heap
     gen_post_send(src, src.func(REL, 'LabelScheduleSource.post_send'))
+    # ScheduledTask(...) is the constructor the contracts above treat as "stores what it is given": that holds for a pydantic model only while no
+    # model-wide option rewrites values (str_strip_whitespace, str_to_lower, coerce_numbers_to_str, ...). Options that do not touch values are listed;
+    # any other one makes the stored payload unknown here (approximation: left to the native driver's payload-fidelity scenario).
+    NEUTRAL = {'arbitrary_types_allowed', 'extra', 'frozen', 'validate_assignment', 'populate_by_name', 'title', 'json_schema_extra', 'protected_namespaces', 'from_attributes'}
+    for rel_ in ('taskiq/scheduler/scheduled_task/v2.py',):
+        for cd_ in [n_ for n_ in src.tree(rel_).body if isinstance(n_, ast.ClassDef) and n_.name == 'ScheduledTask']:
+            opts = set()
+            for n_ in cd_.body:
+                tg = [t_.id for t_ in getattr(n_, 'targets', [getattr(n_, 'target', None)]) if isinstance(t_, ast.Name)] if isinstance(n_, (ast.Assign, ast.AnnAssign)) else []
+                if 'model_config' in tg:
+                    v_ = n_.value
+                    if isinstance(v_, ast.Call): opts |= {k_.arg or '**' for k_ in v_.keywords}
+                    elif isinstance(v_, ast.Dict): opts |= {k_.value if isinstance(k_, ast.Constant) else '**' for k_ in v_.keys}
+                    else: opts.add('<computed>')
+                if isinstance(n_, ast.ClassDef) and n_.name == 'Config': opts |= {t_.id for a_ in n_.body if isinstance(a_, ast.Assign) for t_ in a_.targets if isinstance(t_, ast.Name)}
+            sx = State()
+            if opts - NEUTRAL: approx(sx, f"ScheduledTask.model_config sets {sorted(opts - NEUTRAL)}")
+            oblige(sx, "ScheduledTask/model options: no model-wide option rewrites the task name, labels, arguments or cron text the source hands to the constructor  [C16]", BoolVal(not (opts - NEUTRAL)))
     return {}
